@@ -230,6 +230,7 @@ def run_sequence(case, seed, length, start, allow_tf):
                 st = {"op": op, "backend": kind_of(pose.body), "shape": list(arrays(pose.body)[0].shape), "broken": b}
                 if st["backend"] == "numpy" and not b:
                     st["missing"] = [int(x) for x in arrays(pose.body)[1].reshape(-1)]
+                    st["conf"] = [float(x) for x in arrays(pose.body)[2].reshape(-1)]
                     st["sizes"] = [len(c.points) for c in pose.header.components]
                     st["names"] = [[c.name, list(c.points)] for c in pose.header.components]
                 out["steps"].append(st)
